@@ -4,7 +4,7 @@ import gen
 import tchain
 
 SRCS = ["(of_fn 1)", "(start 2)", "(defer (of_fn 1))", "(defer (defer (start 2)))", "(create (n 1) (n 2) (n 0) c)", "(create (n 1) (e 3))", "(create)",
-        "(create (n 2) (n 2) c (n 1))", "(defer (create (n 0) (n 1) (n 2) (n 1) c))", "(iter 0)", "(iter 1)", "(iter 4)", "(defer (iter 3))"]
+        "(create (n 2) (n 2) c (n 1))", "(defer (create (n 0) (n 1) (n 2) (n 1) c))", "(iter 0)", "(iter 1)", "(iter 4)", "(defer (iter 3))", "(coll 0)", "(coll 3)", "(defer (coll 2))"]
 MODES = ["(seq 2)", "(seq 3)", "(nested 1)", "(nested 2)"]
 
 
@@ -14,7 +14,7 @@ def cases_for(tier, rng):
     uops = gen.uop_instances(3)
     # every operator instance alone (its state must be per subscription)
     for u in uops:
-        for s in SRCS if tier == "thorough" else [SRCS[4], SRCS[8], SRCS[11]]:
+        for s in SRCS if tier == "thorough" else [SRCS[4], SRCS[8], SRCS[11], SRCS[14]]:
             for m in MODES:
                 n += 1
                 form = "local" if n % 2 else "threads"
@@ -48,7 +48,7 @@ def run(tier, seed, replay=None):
     c["generator_distribution"] = hist
     c["exhaustive"] = False
     c["rule"] = ("cold sources whose closures / iterator count their calls (of_fn, start, defer - also nested -, create, from_iter over a counting "
-                 "iterator) followed by a counting map and a chain of 0-3 of the single-input operator instances (each instance also alone); the "
+                 "iterator and over a collection whose into_iter() counts) followed by a counting map and a chain of 0-3 of the single-input operator instances (each instance also alone); the "
                  "pipeline value is built, the counters are read (must be 0), then clones of it are subscribed twice or three times in a row, or "
                  "the second clone from inside the first subscriber's 1st / 2nd callback; observation: every subscription's trace and the counters; "
                  "specification: all traces equal the pure run and the counters are (number of subscriptions) x (calls of one); and " + tchain.RULE2)
